@@ -25,7 +25,7 @@ PROPS = {
         "kind": "c09,std",
         "module": "Props.C09",
         "namespace": "Jl.C09",
-        "extra_theorem_files": [("Proofs.CastInt", "Jl")],
+        "extra_theorem_files": [("Proofs.CastInt", "Jl"), ("Proofs.LineInts", "Jl.LineInts")],
         "rule": ("10 integer casters x sources: every int8/uint8 value (exhaustive), int16/uint16 within 260 of every power of "
                  "two plus a 1/40 sample (thorough: exhaustive), every value within 2 of every power of two and type bound "
                  "carried by every Go integer type that holds it, by decimal text and by json.Number; float64/float32 within "
